@@ -7,6 +7,7 @@ import ast
 from ..cfg import Node, must_edges, walk_no_nested
 from ..constfold import Folder, Unknown
 from ..dataflow import bind_call, chain_key, fmt_origin, origins
+from ..decide import Decider, LoopFacts, role_of
 from ..loader import AnalysisError, ConstInfo, FuncInfo
 from ..report import Ctx
 from .common import all_guards, call_name, direct_guards, norm, where
@@ -488,22 +489,49 @@ def check_accounting(ctx: Ctx) -> None:
                    "later lines of a sentence start at len(subsequent_indent)", where(sw, c))
             ic = b.get("initial_column")
             ok_ic = False
-            if isinstance(ic, ast.Name):
-                defs = flow.reaching(n, ic.id)
-                base = [d for d in defs if d.kind == "assign"]
-                aug = [d for d in defs if d.kind == "aug"]
-                ok_base = False
-                for d in base + [x for a in aug for x in flow.reaching(a.node, ic.id) if x.kind == "assign"]:
-                    v = d.value
-                    if isinstance(v, ast.IfExp):
-                        s1 = prog.slice(sw, v.body, d.node).params()
-                        s2 = prog.slice(sw, v.orelse, d.node).params()
-                        ok_base = "initial_indent" in s1 and "subsequent_indent" in s2 and "first_line" in norm(v.test)
-                ok_aug = all("lines[-1]" in norm(a.value) for a in aug)
+            detail = ""
+            heads = [h for h in flow.cfg.nodes if h.kind == "for" and n in flow.loop_body_nodes(h)]
+            if ic is not None and heads:
+                head = min(heads, key=lambda h: len(flow.loop_body_nodes(h)))
+                facts = LoopFacts(prog, sw, head)
+
+                def value_leaf(cur: FuncInfo, e: ast.AST, aliases: frozenset):
+                    if isinstance(e, ast.Call) and len(e.args) == 1 and not e.keywords and \
+                            ("lenfn" in role_of(e.func, aliases) or (isinstance(e.func, ast.Name) and e.func.id == "len")):
+                        roles = role_of(e.args[0], aliases)
+                        if "init" in roles:
+                            return "LEN_INIT"
+                        if "sub" in roles:
+                            return "LEN_SUB"
+                    return None
+
+                al = frozenset({"init=initial_indent", "sub=subsequent_indent", "lenfn=len_fn"})
+                got: dict[bool, set] = {}
+                augs: set = set()
+                for first in (True, False):
+                    fa = facts.first_atom(first)
+                    dec = Decider(prog, lambda leaf, _al, fa=fa: fa(leaf), value_leaf=value_leaf)
+                    vals: set = set()
+                    for end, env, benv, outs in dec.walk(sw, flow.cfg.entry, lambda x, n=n: x is n, al):
+                        if end is not n:
+                            continue
+                        vals |= dec.ev(sw, ic, env, benv, env.get("__aliases__", al), 0)
+                        if isinstance(ic, ast.Name):
+                            augs |= {o[2] for o in outs if isinstance(o, tuple) and o and o[0] == "aug" and o[1] == ic.id}
+                    got[first] = vals
+                ok_base = got[True] == {"LEN_INIT"} and got[False] == {"LEN_SUB"}
+                # what is added on top: the length of the last line produced so far (X[-1])
+                ok_aug = True
+                for a in augs:
+                    v = a.ast.value
+                    sub = v.args[0] if isinstance(v, ast.Call) and len(v.args) == 1 else None
+                    ok_aug = ok_aug and isinstance(a.ast.op, ast.Add) and isinstance(sub, ast.Subscript) and isinstance(sub.slice, ast.UnaryOp) \
+                        and isinstance(sub.slice.op, ast.USub) and isinstance(sub.slice.operand, ast.Constant) and sub.slice.operand.value == 1
                 ok_ic = ok_base and ok_aug
+                detail = f"; on the first sentence the column starts from {sorted(map(str, got[True]))}, on later ones from {sorted(map(str, got[False]))}"
             ctx.ob("R-ACCT", f"{sw.qual} -> {wl.qual} :: initial_column", ok_ic,
                    "a sentence starts at the indent of its line (initial indent for the first line, subsequent indent otherwise), plus the "
-                   "short previous line it may be merged into", where(sw, c))
+                   "short previous line it may be merged into" + detail, where(sw, c))
     # inside the fill loop: fit test and reset
     flow = prog.flow(wl)
     fits = [n for n in flow.cfg.nodes if n.kind == "test" and isinstance(n.ast, ast.Compare) and isinstance(n.ast.ops[0], (ast.LtE, ast.Lt))
